@@ -40,6 +40,7 @@ const rnsYearBlocks = 5484530
 const (
 	rnsDenomA = "ujkl"
 	rnsDenomB = "uatom"
+	rnsDenomC = "ibc/awei"
 )
 
 type rwRec struct{ Name, Value, Data string }
@@ -120,6 +121,8 @@ type RW struct {
 	pgTick int
 	// per listed name: the listing as its owner created it
 	consent map[string]rwSale
+	// the message being judged was sent together with a message bound to fail (rolled-back transaction)
+	forcedFailure bool
 }
 
 // paging: a client paging through the listings this property is about sees what the one-shot listings show (paging.go)
@@ -470,6 +473,7 @@ func (w *RW) Do(i int, msg sdk.Msg) (chain.TxResult, bool) {
 		// the message travels in one transaction with a second message of the same signer that is bound to fail
 		// (cancelling a bid that was never placed): the whole transaction is refused and nothing of the first
 		// message may remain, whatever it would have done on its own
+		w.forcedFailure = true
 		res = w.c.DeliverAs(i, msg, &rnstypes.MsgCancelBid{Creator: w.c.Accs[i].Bech, Name: "never-bid-on-" + fmt.Sprint(h) + ".jkl"})
 		w.rc.Count("messages_in_a_transaction_that_rolls_back", 1)
 		if res.OK() {
@@ -498,6 +502,7 @@ func (w *RW) Do(i int, msg sdk.Msg) (chain.TxResult, bool) {
 		w.line = append(w.line, l)
 	}
 	w.judge(i, msg, res, pre, post, d, h)
+	w.forcedFailure = false
 	w.st = post
 	return res, true
 }
@@ -658,6 +663,13 @@ func (w *RW) judge(i int, msg sdk.Msg, res chain.TxResult, pre, post *rwState, d
 
 	// ---- a rejected message changes nothing (for Register this is C16's "a failed one costs nothing")
 	if !ok {
+		// "a bidder gets back everything it escrowed for a name by cancelling": a cancel of one's own open bid that is
+		// refused leaves the escrow locked (not judged when the workload itself made the transaction fail)
+		if in.Kind == "CancelBid" && !w.forcedFailure {
+			if b, open := pre.Bids[rnsBidKey(signer, in.Target)]; open {
+				w.fail("C09", "cancel-of-open-bid-refused", "h=%d %s by %s was rejected (%s) although its bid of %s on that name is open", h, rnsDescribe(msg), w.name(signer), rnsFirstLine(res.Log), b.PriceStr)
+			}
+		}
 		if len(d) > 0 {
 			w.fail(gp, "rejected-message-moved-balances", "h=%d %s by %s was rejected (%s) but balances moved: %s", h, rnsDescribe(msg), w.name(signer), rnsFirstLine(res.Log), w.deltaString(d))
 		}
@@ -1235,5 +1247,7 @@ func rnsMixCase(rc *RunCtx, full string) string {
 }
 
 func rnsFund() sdk.Coins {
-	return sdk.NewCoins(sdk.NewInt64Coin(rnsDenomA, 1_000_000_000_000_000), sdk.NewInt64Coin(rnsDenomB, 1_000_000_000_000))
+	// rnsDenomC is an 18-decimal asset: ordinary amounts of it do not fit into an int64
+	wei, _ := sdk.NewIntFromString("1000000000000000000000000")
+	return sdk.NewCoins(sdk.NewInt64Coin(rnsDenomA, 1_000_000_000_000_000), sdk.NewInt64Coin(rnsDenomB, 1_000_000_000_000), sdk.NewCoin(rnsDenomC, wei))
 }
